@@ -149,9 +149,11 @@ def grouping_semantics(chk, repo, mod):
         I = Interp(repo)
         sc = I.module_scope(mod).child(owner=ps)
         entries_name = None
+        flow_ps = Flow(ps)
         for n in ast.walk(loop):
-            if isinstance(n, ast.Call) and isinstance(n.func, ast.Attribute) and n.func.attr == "append" and isinstance(n.func.value, ast.Name):
-                entries_name = n.func.value.id
+            if isinstance(n, ast.Call) and isinstance(n.func, ast.Attribute) and n.func.attr == "append" and isinstance(n.func.value, ast.Name) and n.args:
+                if "parse_line(" in norm(flow_ps.expand(n.args[0])):
+                    entries_name = n.func.value.id
         if entries_name is None:
             raise AnalysisError(f"{where}: the list the parsed lines are appended to was not found")
         sc.vars[entries_name] = ListLit([entry(*e) for e in ents])
